@@ -156,6 +156,10 @@ def textclass(tx):
         return "lone_operator"
     if tx in ("x = 3", "__import__('os')", "None", "lambda"):
         return "code_like"
+    if any(ch in tx for ch in "\x0b\x0c\x1c\x1d\x1e\x85\u2028\u2029"):
+        return "unicode_line_boundary_character"
+    if "\\" in tx:
+        return "backslash"
     if len(tx) > 100:
         return "long"
     if not tx.isascii():
